@@ -131,7 +131,7 @@ def gen_cases(tier, seed):
     return cases
 
 
-MULTI = [("scd", "nooa"), ("scd", "nb"), ("authn", "session-nooa"), ("assertion", "cond-nooa"), ("assertion", "cond-nb"),
+MULTI = [("scd", "nooa"), ("scd", "nb"), ("scd", "inverted"), ("authn", "session-nooa"), ("assertion", "cond-nooa"), ("assertion", "cond-nb"),
          ("conditions", "cond-nooa"), ("conditions", "cond-nb"), ("scdata", "nooa"),
          # an assertion carried as advice inside the main one (its attributes are merged into the identity)
          ("advice", "cond-nooa"), ("advice", "cond-nb")]
@@ -201,7 +201,14 @@ def run_multi(case, ctx):
         return v
 
     bad = variant(good, 9)
-    if elem == "scd":
+    if elem == "scd" and bound == "inverted":
+        # both bounds satisfied thanks to the allowance, but NotBefore later than NotOnOrAfter (only possible with an allowance)
+        n = bad.find(xk.SAML, "SubjectConfirmationData")[0]
+        gap = max(1, min(W // 3, off))
+        bad = bad.set_attr(n, "NotOnOrAfter", clock.iso(T0 - gap))
+        n = bad.find(xk.SAML, "SubjectConfirmationData")[0]
+        bad = bad.set_attr(n, "NotBefore", clock.iso(T0 + gap))
+    elif elem == "scd":
         n = bad.find(xk.SAML, "SubjectConfirmationData")[0]
         bad = bad.set_attr(n, "NotOnOrAfter" if bound == "nooa" else "NotBefore", clock.iso(T0 - W - off) if bound == "nooa" else clock.iso(T0 + W + off))
     elif elem == "authn":
